@@ -93,14 +93,20 @@ def explore(item, ctx, seed, easy_menu, clauses, quarter=True):
         # unsorted input on purpose
         pin, nin = pos[::-1], neg[::-1]
     orig_pos, orig_neg = pos, neg
+    # easy counts handed over as NumPy integer scalars of a small type (a count read out of a uint8 / int8 array)
+    typed_easy = [(255, 127)] if item.get("grid") == "irregular" and len(orig_pos) + len(orig_neg) <= 4 else []
     for cfg in ot.CFGS:
         sc, ec = cfg
-        for ep, en in easy_menu:
+        for ep, en in list(easy_menu) + typed_easy:
             pos, neg = orig_pos, orig_neg  # (the loop over derived objects below rebinds these names)
             base_case = {"blocks": item["blocks"], "grid": item["grid"], "pos": pos, "neg": neg,
                          "cfg": cfg, "easy": [ep, en]}
-            ok, s = guarded(ctx, "construct", base_case, Scores, pin, nin, nb_easy_pos=ep,
-                            nb_easy_neg=en, score_class=sc, equal_class=ec)
+            ep_arg, en_arg = ep, en
+            if (ep, en) in typed_easy and (ep, en) not in easy_menu:
+                ep_arg, en_arg = np.uint8(ep), np.int8(en)
+                base_case["easy_passed_as"] = ["np.uint8", "np.int8"]
+            ok, s = guarded(ctx, "construct", base_case, Scores, pin, nin, nb_easy_pos=ep_arg,
+                            nb_easy_neg=en_arg, score_class=sc, equal_class=ec)
             if not ok:
                 continue
             src_pos, src_neg, src_easy = pos, neg, (ep, en)
